@@ -227,7 +227,7 @@ def main(tier, seed):
             if any(obs["findings"]):
                 chk.nontriv((tuple(labels), opt["json"], opt["print"]))
             for l in labels:
-                chk.stats[l] = chk.stats.get(l, 0) + 1
+                chk.stats[l.split(":")[0]] = chk.stats.get(l.split(":")[0], 0) + 1
         if built and obs_list:
             exp = model_expect(Driver(), obs_list)
             mism = []
